@@ -109,13 +109,18 @@ def rules(ctx):
         "start_depot": [call(T("first_node")), call(N("get_depot_idx")), call(N("get_depot"))],
         "end_depot": [call(T("last_node")), call(N("get_depot_idx")), call(N("get_depot"))],
     })
+    successor_rules(ctx)
+
+
+def successor_rules(ctx, rid="R4"):
+    """the successor of a vehicle is read from its own cycle (shared with C16)"""
     # R4: update_vehicle keeps the membership of the cycle
-    o, fd = ctx.require_fn("R4.update-keeps-cycle-members", "T1", TR("update_vehicle"),
+    o, fd = ctx.require_fn("%s.update-keeps-cycle-members" % rid, "T1", TR("update_vehicle"),
                            "update_vehicle rebuilds the cycle with the same vehicle vector")
     if fd is not None:
         c = calls_to(fd, TCYCLE + "::new")
         ok = len(c) == 1 and call(TCYCLE + "::get_vec") in fd.slice_operand_pure(c[0], c[0].args[0])["atoms"]
         ctx.decide(o, ok, "TransitionCycle::new(old_cycle.get_vec().clone(), ..)", "the rebuilt cycle does not take the old cycle's vehicles")
-    must_depend(ctx, "R4.successor-definition", "T1", TR("get_successor_of"), "ret",
+    must_depend(ctx, "%s.successor-definition" % rid, "T1", TR("get_successor_of"), "ret",
                 [field(TRANSITION, "cycle_lookup"), field(TRANSITION, "cycles"), "param:2", call(TCYCLE + "::get_vec")],
                 "get_successor_of reads the vehicle's own cycle through the lookup")
